@@ -20,19 +20,25 @@ ASSUME SpecIsLinear ==
   IN /\ \A i \in 1..pr.L : CAB[i] = CA[i] ^^ CB[i] /\ CcA[i] = Mul(c, CA[i])
      /\ \A X \in {0, 5, 12, 1000, 16777222} : EncSym(pr, CAB, X) = EncSym(pr, CA, X) ^^ EncSym(pr, CB, X)
 
+\* For large T the event carries a projection: "pos" lists the byte positions (0-based) that were kept, and every
+\* packet / column array is restricted to them (the relations are position-wise, so a projection is checked exactly
+\* like a whole symbol); without "pos" all T positions are present.
+NPos(e) == IF "pos" \in DOMAIN e THEN Len(e.pos) ELSE e.t
+PosOf(e, j) == IF "pos" \in DOMAIN e THEN e.pos[j] ELSE j - 1
 LinOk(e) ==
   /\ Chk(e.res = "ok", <<"encoder failed", e.k, e.t, e.res>>) /\ e.res = "ok"
   /\ Len(e.pa) = Len(e.esis) /\ Len(e.pb) = Len(e.esis) /\ Len(e.pab) = Len(e.esis) /\ Len(e.pca) = Len(e.esis)
-  /\ Len(e.cols) = e.t
+  /\ Len(e.cols) = NPos(e)
+  /\ ("pos" \in DOMAIN e => \A j \in 1..Len(e.pos) : e.pos[j] < e.t)
   /\ \A i \in 1..Len(e.esis) :
-       /\ Len(e.pa[i]) = e.t
-       /\ \A j \in 1..e.t :
+       /\ Len(e.pa[i]) = NPos(e)
+       /\ \A j \in 1..NPos(e) :
             /\ Chk(e.pab[i][j] = e.pa[i][j] ^^ e.pb[i][j],
-                   <<"not additive", "K", e.k, "T", e.t, "route", e.route, "esi", e.esis[i], "byte", j - 1>>)
+                   <<"not additive", "K", e.k, "T", e.t, "route", e.route, "esi", e.esis[i], "byte", PosOf(e, j)>>)
             /\ Chk(e.pca[i][j] = Mul(e.c, e.pa[i][j]),
-                   <<"not homogeneous", "K", e.k, "T", e.t, "route", e.route, "esi", e.esis[i], "byte", j - 1, "c", e.c>>)
+                   <<"not homogeneous", "K", e.k, "T", e.t, "route", e.route, "esi", e.esis[i], "byte", PosOf(e, j), "c", e.c>>)
             /\ Chk(e.pa[i][j] = e.cols[j][i],
-                   <<"byte column not independent", "K", e.k, "T", e.t, "route", e.route, "esi", e.esis[i], "byte", j - 1,
+                   <<"byte column not independent", "K", e.k, "T", e.t, "route", e.route, "esi", e.esis[i], "byte", PosOf(e, j),
                      "got", e.pa[i][j], "column alone", e.cols[j][i]>>)
 
 Init == v_pos = 1 /\ v_seen = {}
